@@ -107,7 +107,15 @@ type FieldDiscipline struct {
 	Tags          []string
 }
 
+// ReachDiscipline: no function reachable (static call graph of the loaded packages) from the roots
+// calls one of the forbidden callees.
+type ReachDiscipline struct {
+	Roots, Forbidden []string
+	Tags             []string
+}
+
 type Unit struct {
+	ReachDisciplines []ReachDiscipline
 	FieldDisciplines []FieldDiscipline
 	Disciplines []Discipline
 	Name     string
@@ -144,7 +152,7 @@ type ContractSet struct {
 	All       []*Contract
 }
 
-var kwRe = regexp.MustCompile(`^(unit|ghost|spec|extern|func|lemma|protocol|apply|discipline|requires|ensures|modifies|loop|tolerates|assert|tags|known|pure|nodefault|fresh|axiom|opt)\b`)
+var kwRe = regexp.MustCompile(`^(unit|ghost|spec|extern|func|lemma|protocol|apply|discipline|load-for|requires|ensures|modifies|loop|tolerates|assert|tags|known|pure|nodefault|fresh|axiom|opt)\b`)
 
 func parseExprClause(text, file string, line int) (*Clause, error) {
 	t := strings.ReplaceAll(text, "==>", "&& _IMPLIES_ &&") // placeholder, fixed below
@@ -457,6 +465,7 @@ func (cs *ContractSet) parseFile(file, relDir string) error {
 			}
 			cs.Units = append(cs.Units, unit)
 			cur = nil
+		case "load-for":
 		case "ghost":
 			if unit == nil {
 				return fmt.Errorf("%s:%d: ghost outside unit", file, s.line)
@@ -496,6 +505,32 @@ func (cs *ContractSet) parseFile(file, relDir string) error {
 			unit.Specs[sf.Name] = sf
 			unit.SpecList = append(unit.SpecList, sf)
 		case "discipline":
+			if unit != nil && strings.HasPrefix(s.rest, "no-reach ") {
+				// discipline no-reach from f1, f2 to c1, c2 tags C19
+				rest := strings.TrimPrefix(s.rest, "no-reach ")
+				var tags []string
+				if k := strings.Index(rest, " tags "); k >= 0 {
+					tags = strings.Fields(rest[k+6:])
+					rest = rest[:k]
+				}
+				k := strings.Index(rest, " to ")
+				if !strings.HasPrefix(rest, "from ") || k < 0 {
+					return fmt.Errorf("%s:%d: discipline no-reach from f1, f2 to c1, c2 tags T", file, s.line)
+				}
+				rd := ReachDiscipline{Tags: tags}
+				for _, a := range splitTop(rest[5:k], ',') {
+					if a = strings.TrimSpace(a); a != "" {
+						rd.Roots = append(rd.Roots, qualifyKey(a, pkgName))
+					}
+				}
+				for _, a := range splitTop(rest[k+4:], ',') {
+					if a = strings.TrimSpace(a); a != "" {
+						rd.Forbidden = append(rd.Forbidden, a)
+					}
+				}
+				unit.ReachDisciplines = append(unit.ReachDisciplines, rd)
+				continue
+			}
 			if unit != nil && strings.HasPrefix(s.rest, "field ") {
 				// discipline field <Struct>.<field> only-in f1, f2, ... tags C06 C14
 				rest := strings.TrimPrefix(s.rest, "field ")
